@@ -15,6 +15,7 @@ use sc::verif::{Action, Call, Rule, GUARDED_FOREVER};
 use vh::runner::{CaseReport, CaseResult, Ctx, Failure};
 
 mod classify;
+mod infallible;
 mod outparams;
 mod scan;
 mod table;
@@ -393,6 +394,10 @@ pub fn run(ctx: &Ctx) {
             classify::run(ctx);
             return;
         }
+        if ctx.replay_case::<infallible::InfCase>("infallible").is_some() {
+            infallible::run(ctx);
+            return;
+        }
         if ctx.replay_case::<outparams::OutCase>("out-params").is_some() {
             outparams::run(ctx);
             return;
@@ -469,4 +474,5 @@ pub fn run(ctx: &Ctx) {
     ));
     outparams::run(ctx);
     classify::run(ctx);
+    infallible::run(ctx);
 }
